@@ -262,16 +262,19 @@ theorem cantorFill_get {L : Array Nat} (hL : CantorInv 16 L) (c : Nat) (hc : c <
 /-! ## A.3 `initialize_exp_log` -/
 
 /-- `initialize_exp_log` with the results of its first two loops abstracted -/
-def initExpLogWith (E L : Array Nat) : Array Nat × Array Nat :=
-  let exp0 := E.setIfInBounds 0 65535
-  let log1 := Array.ofFn (n := 65536) fun i => exp0.getD (L.getD i.val 0) 0
-  let exp1 := (List.range 65536).foldl (fun e i => e.setIfInBounds (log1.getD i 0) i) exp0
-  let exp2 := exp1.setIfInBounds 65535 (exp1.getD 0 0)
-  (exp2, log1)
+def exp0Of (E : Array Nat) : Array Nat := E.setIfInBounds 0 65535
+def log1Of (E L : Array Nat) : Array Nat :=
+  Array.ofFn (n := 65536) fun i => (exp0Of E).getD (L.getD i.val 0) 0
+def exp1Of (E L : Array Nat) : Array Nat :=
+  (List.range 65536).foldl (fun e i => e.setIfInBounds ((log1Of E L).getD i 0) i) (exp0Of E)
+def exp2Of (E L : Array Nat) : Array Nat :=
+  (exp1Of E L).setIfInBounds 65535 ((exp1Of E L).getD 0 0)
 
 theorem initExpLog_eq : initExpLog =
-    initExpLogWith (lfsrFill 65535 0 1 (Array.replicate 65536 0))
-      (cantorFill 16 0 (Array.replicate 65536 0)) := rfl
+    (exp2Of (lfsrFill 65535 0 1 (Array.replicate 65536 0))
+        (cantorFill 16 0 (Array.replicate 65536 0)),
+      log1Of (lfsrFill 65535 0 1 (Array.replicate 65536 0))
+        (cantorFill 16 0 (Array.replicate 65536 0))) := rfl
 
 /-- scatter `e[f i] := i` for `i < n` with `f` injective: afterwards `e[f i] = i` -/
 theorem scatter_getD (f : Nat → Nat) (e : Array Nat) : ∀ (n : Nat),
@@ -331,80 +334,87 @@ section withEL
 variable {E L : Array Nat} (hE : LfsrInv 65535 E) (hL : CantorInv 16 L)
 include hE hL
 
-theorem initExpLogWith_log_size : (initExpLogWith E L).2.size = 65536 := Array.size_ofFn
+omit hE hL in
+theorem log1Of_size : (log1Of E L).size = 65536 := by
+  unfold log1Of; exact Array.size_ofFn
 
-theorem initExpLogWith_log (c : Nat) (hc : c < 65536) :
-    (initExpLogWith E L).2.getD c 0 = logArr.getD c 0 := by
-  show (Array.ofFn (n := 65536) fun i =>
-    (E.setIfInBounds 0 65535).getD (L.getD i.val 0) 0).getD c 0 = _
+theorem log1Of_get (c : Nat) (hc : c < 65536) : (log1Of E L).getD c 0 = logArr.getD c 0 := by
+  unfold log1Of exp0Of
   rw [getD_ofFn _ c hc]
   show (E.setIfInBounds 0 65535).getD (L.getD c 0) 0 = _
   rw [cantorFill_get hL c hc, exp0_spec hE, phiInv_phi, toNat_ofNat_lt hc]
 
-theorem initExpLogWith_exp1 (k : Nat) (hk : k < 65535) :
-    ((List.range 65536).foldl
-      (fun e i => e.setIfInBounds ((initExpLogWith E L).2.getD i 0) i)
-      (E.setIfInBounds 0 65535)).getD k 0 = (gexp k).toNat := by
-  have hlog := initExpLogWith_log hE hL
-  have key := scatter_getD (fun i => (initExpLogWith E L).2.getD i 0) (E.setIfInBounds 0 65535) 65536
+omit hL in
+theorem exp1Of_size : (exp1Of E L).size = 65536 := by
+  unfold exp1Of exp0Of
+  rw [foldl_set_size (fun _ i => (log1Of E L).getD i 0) (fun _ i => i),
+    Array.size_setIfInBounds, hE.1]
+
+theorem exp1Of_get (k : Nat) (hk : k < 65535) : (exp1Of E L).getD k 0 = (gexp k).toNat := by
+  have hlog := log1Of_get hE hL
+  have key := scatter_getD (fun i => (log1Of E L).getD i 0) (exp0Of E) 65536
     (fun i j hi hj h => by
       simp only [hlog i hi, hlog j hj] at h
       exact logArr_inj hi hj h)
     (fun i hi => by
       simp only [hlog i hi]
+      unfold exp0Of
       rw [Array.size_setIfInBounds, hE.1]
       exact Nat.lt_succ_of_le (logArr_le i))
     (gexp k).toNat (sym_toNat_lt _)
   simp only [hlog _ (sym_toNat_lt (gexp k)), logArr_gexp k hk] at key
   exact key
 
-theorem initExpLogWith_exp (k : Nat) (hk : k < 65536) :
-    (initExpLogWith E L).1.getD k 0 = (gexp k).toNat := by
-  show (Array.setIfInBounds _ 65535 _).getD k 0 = _
+theorem exp2Of_get (k : Nat) (hk : k < 65536) : (exp2Of E L).getD k 0 = (gexp k).toNat := by
+  unfold exp2Of
   rw [getD_setIfInBounds]
   by_cases h : k = 65535
   · subst h
-    rw [if_pos ⟨rfl, ?_⟩]
-    · have := initExpLogWith_exp1 hE hL 0 (by decide)
-      rw [gexp_65535, ← gexp_zero]
-      exact this
-    · rw [foldl_set_size (fun _ i => (initExpLogWith E L).2.getD i 0) (fun _ i => i),
-        Array.size_setIfInBounds, hE.1]
-      decide
+    rw [if_pos ⟨rfl, by rw [exp1Of_size hE]; decide⟩, gexp_65535, ← gexp_zero]
+    exact exp1Of_get hE hL 0 (by decide)
   · rw [if_neg (fun h' => h h'.1.symm)]
-    exact initExpLogWith_exp1 hE hL k (by omega)
+    exact exp1Of_get hE hL k (by omega)
 
-theorem initExpLogWith_exp_size : (initExpLogWith E L).1.size = 65536 := by
-  show (Array.setIfInBounds _ 65535 _).size = _
-  rw [Array.size_setIfInBounds,
-    foldl_set_size (fun _ i => (initExpLogWith E L).2.getD i 0) (fun _ i => i),
-    Array.size_setIfInBounds, hE.1]
+omit hL in
+theorem exp2Of_size : (exp2Of E L).size = 65536 := by
+  unfold exp2Of
+  rw [Array.size_setIfInBounds, exp1Of_size hE]
 
 end withEL
+
+theorem initExpLog_fst : initExpLog.1 =
+    exp2Of (lfsrFill 65535 0 1 (Array.replicate 65536 0))
+      (cantorFill 16 0 (Array.replicate 65536 0)) := by
+  rw [initExpLog_eq]
+
+theorem initExpLog_snd : initExpLog.2 =
+    log1Of (lfsrFill 65535 0 1 (Array.replicate 65536 0))
+      (cantorFill 16 0 (Array.replicate 65536 0)) := by
+  rw [initExpLog_eq]
 
 /-- A.3 (log): `log[c]` is the specified log table -/
 theorem initExpLog_log (c : Nat) (hc : c < 65536) :
     initExpLog.2.getD c 0 = logArr.getD c 0 := by
-  rw [initExpLog_eq]
-  exact initExpLogWith_log lfsrFill_spec cantorFill_spec c hc
+  rw [initExpLog_snd]
+  exact log1Of_get lfsrFill_spec cantorFill_spec c hc
 
 theorem initExpLog_log_size : initExpLog.2.size = 65536 := by
-  rw [initExpLog_eq]
-  exact initExpLogWith_log_size lfsrFill_spec cantorFill_spec
+  rw [initExpLog_snd]
+  exact log1Of_size
 
 /-- A.3 (exp): `exp[k] = g^k`, in particular `exp[65535] = exp[0] = 1` -/
 theorem initExpLog_exp (k : Nat) (hk : k < 65536) :
     initExpLog.1.getD k 0 = (gexp k).toNat := by
-  rw [initExpLog_eq]
-  exact initExpLogWith_exp lfsrFill_spec cantorFill_spec k hk
+  rw [initExpLog_fst]
+  exact exp2Of_get lfsrFill_spec cantorFill_spec k hk
 
 theorem initExpLog_exp_expArr (k : Nat) (hk : k < 65536) :
-    initExpLog.1.getD k 0 = (expArr.getD k 0).toNat := by
+    initExpLog.1.getD k 0 = (expArr.getD k 0#16).toNat := by
   rw [initExpLog_exp k hk, expArr_get k hk]
 
 theorem initExpLog_exp_size : initExpLog.1.size = 65536 := by
-  rw [initExpLog_eq]
-  exact initExpLogWith_exp_size lfsrFill_spec cantorFill_spec
+  rw [initExpLog_fst]
+  exact exp2Of_size lfsrFill_spec
 
 /-- the log table as a discrete logarithm: `log[c] = glog c` for `c ≠ 0`, `log[0] = 65535` -/
 theorem initExpLog_log_glog (x : Sym) (hx : x ≠ 0) : initExpLog.2.getD x.toNat 0 = glog x := by
@@ -419,4 +429,547 @@ theorem initExpLog_exp_log (x : Sym) (hx : x ≠ 0) :
   rw [initExpLog_log_glog x hx, initExpLog_exp _ (by have := (glog_spec x hx).1; omega),
     (glog_spec x hx).2]
 
+/-! ## the hypotheses "given A" -/
+
+/-- what the later construction steps need from the pair `(exp, log)` -/
+structure ExpLogOK (e l : Array Nat) : Prop where
+  lsize : l.size = 65536
+  log : ∀ c, c < 65536 → l.getD c 0 = logArr.getD c 0
+  exp : ∀ k, k < 65536 → e.getD k 0 = (gexp k).toNat
+
+/-- A: the tables built by `initialize_exp_log` satisfy them -/
+theorem initExpLog_ok : ExpLogOK initExpLog.1 initExpLog.2 :=
+  ⟨initExpLog_log_size, initExpLog_log, initExpLog_exp⟩
+
+theorem getD_eq_getElem' (a : Array Nat) (i : Nat) (h : i < a.size) : a.getD i 0 = a[i] := by
+  simp [Array.getD, h]
+
+/-- a log table that agrees entrywise with `logArr` is `logArr` -/
+theorem ExpLogOK.log_eq {e l : Array Nat} (ok : ExpLogOK e l) : l = logArr := by
+  apply Array.ext
+  · rw [ok.lsize, logArr_size]
+  · intro i h1 h2
+    have := ok.log i (by rw [← ok.lsize]; exact h1)
+    rw [getD_eq_getElem' l i h1, getD_eq_getElem' logArr i h2] at this
+    exact this
+
+theorem initExpLog_log_eq : initExpLog.2 = logArr := initExpLog_ok.log_eq
+
+/-! ## B. the multiplication tables -/
+
+theorem gexp_addMod {a b : Nat} (ha : a ≤ 65535) (hb : b ≤ 65535) :
+    gexp (addMod a b) = gmul (gexp a) (gexp b) := by
+  obtain ⟨h1, h2⟩ := addMod_spec a b (by omega) (by omega)
+  rw [← gexp_add a b (by omega)]
+  exact gexp_mod_eq h2 (by omega) (by omega)
+
+theorem addMod_le {a b : Nat} (ha : a ≤ 65535) (hb : b ≤ 65535) : addMod a b ≤ 65535 := by
+  have := (addMod_spec a b (by omega) (by omega)).1
+  omega
+
+section withOK
+variable {e l : Array Nat} (ok : ExpLogOK e l)
+include ok
+
+/-- `tables::mul(x, log_m)` multiplies by `g^log_m` -/
+theorem tmul_spec (x logm : Nat) (hx : x < 65536) (hm : logm ≤ 65535) :
+    tmul e l x logm = (gmul (BitVec.ofNat 16 x) (gexp logm)).toNat := by
+  unfold tmul
+  by_cases h0 : x = 0
+  · subst h0
+    rw [if_pos rfl]
+    have : gmul (BitVec.ofNat 16 0) (gexp logm) = 0 := gmul_zero_left _
+    rw [this]; rfl
+  · rw [if_neg h0, ok.log x hx]
+    obtain ⟨h1, h2⟩ := logArr_getD_lt hx h0
+    rw [ok.exp _ (Nat.lt_succ_of_le (addMod_le (by omega) hm)), gexp_addMod (by omega) hm, h2]
+
+/-- B: every entry of the `Mul16` table is the specified `lut16` entry -/
+theorem initMul16Entry_spec (logm k i : Nat) (hm : logm ≤ 65535) (hk : k < 4) (hi : i < 16) :
+    initMul16Entry e l logm k i = (lut16 (fun y => gmul (gexp logm) y) k i).toNat := by
+  unfold initMul16Entry lut16
+  have hp : 2 ^ (4 * k) ≤ 2 ^ 12 := Nat.pow_le_pow_right (by decide) (by omega)
+  have hx : i * 2 ^ (4 * k) < 65536 :=
+    Nat.lt_of_le_of_lt (Nat.mul_le_mul (show i ≤ 15 by omega) hp) (by decide)
+  rw [tmul_spec ok _ _ hx hm, gmul_comm]
+
+/-! ## C. the log-Walsh table -/
+
+/-- C: `initialize_log_walsh` produces `LOG_WALSH` -/
+theorem initLogWalsh_spec : initLogWalsh l = logWalshArr := by
+  unfold initLogWalsh
+  rw [ok.log_eq, logWalshArr_def, lgArr]
+
+end withOK
+
+theorem initMul16Entry_initExpLog (logm k i : Nat) (hm : logm ≤ 65535) (hk : k < 4) (hi : i < 16) :
+    initMul16Entry initExpLog.1 initExpLog.2 logm k i =
+      (lut16 (fun y => gmul (gexp logm) y) k i).toNat :=
+  initMul16Entry_spec initExpLog_ok logm k i hm hk hi
+
+theorem initLogWalsh_initExpLog : initLogWalsh initExpLog.2 = logWalshArr :=
+  initLogWalsh_spec initExpLog_ok
+
+/-! ## D. the skew table -/
+
+theorem pow_succ2 (m : Nat) : 2 ^ (m + 1) = 2 * 2 ^ m := by rw [Nat.pow_succ, Nat.mul_comm]
+
+theorem pow_mds (m d : Nat) : 2 ^ (m + d + 1) = 2 ^ d * 2 ^ (m + 1) := by
+  rw [show m + d + 1 = d + (m + 1) by omega, Nat.pow_add]
+
+theorem skewInner_zero (step s tempi j : Nat) (a : Array Nat) :
+    skewInner step s tempi 0 j a = a := rfl
+
+theorem skewInner_succ (step s tempi f j : Nat) (a : Array Nat) :
+    skewInner step s tempi (f + 1) j a =
+      if j < s then skewInner step s tempi f (j + step)
+        (a.setIfInBounds (j + s) (Nat.xor (a.getD j 0) tempi))
+      else a := rfl
+
+/-- the first `T` entries of level `m` (indices `2^m - 1 + t·2^(m+1)`) hold `s_m(t·2^(m+1))` -/
+def LevelOK (m T : Nat) (a : Array Nat) : Prop :=
+  ∀ t, t < T → a.getD (2 ^ m - 1 + t * 2 ^ (m + 1)) 0 =
+    (sPoly m (BitVec.ofNat 16 (t * 2 ^ (m + 1)))).toNat
+
+/-- entries outside level `m` are unchanged -/
+def Frame (m : Nat) (a a' : Array Nat) : Prop :=
+  a'.size = a.size ∧ ∀ k, (∀ t, k ≠ 2 ^ m - 1 + t * 2 ^ (m + 1)) → a'.getD k 0 = a.getD k 0
+
+theorem Frame.refl (m : Nat) (a : Array Nat) : Frame m a a := ⟨rfl, fun _ _ => rfl⟩
+
+theorem Frame.trans {m : Nat} {a b c : Array Nat} (h1 : Frame m a b) (h2 : Frame m b c) :
+    Frame m a c :=
+  ⟨h2.1.trans h1.1, fun k hk => (h2.2 k hk).trans (h1.2 k hk)⟩
+
+theorem Frame.set (m t v : Nat) (a : Array Nat) :
+    Frame m a (a.setIfInBounds (2 ^ m - 1 + t * 2 ^ (m + 1)) v) := by
+  refine ⟨Array.size_setIfInBounds, fun k hk => ?_⟩
+  rw [getD_setIfInBounds, if_neg (fun hc => hk t hc.1.symm)]
+
+/-- the inner `while` loop for one `i = m + d`: it doubles the filled part of level `m` -/
+theorem skewInner_spec {m d : Nat} (hmd : m + d ≤ 14) : ∀ (f t : Nat) (a : Array Nat),
+    t ≤ 2 ^ d → 2 ^ d ≤ t + f → a.size = 65535 → LevelOK m (2 ^ d + t) a →
+    LevelOK m (2 ^ (d + 1)) (skewInner (2 ^ (m + 1)) (2 ^ (m + d + 1))
+        (sPoly m (BitVec.ofNat 16 (2 ^ (m + d + 1)))).toNat f (2 ^ m - 1 + t * 2 ^ (m + 1)) a) ∧
+      Frame m a (skewInner (2 ^ (m + 1)) (2 ^ (m + d + 1))
+        (sPoly m (BitVec.ofNat 16 (2 ^ (m + d + 1)))).toNat f (2 ^ m - 1 + t * 2 ^ (m + 1)) a) := by
+  have hS : 2 ^ (m + 1) = 2 * 2 ^ m := pow_succ2 m
+  have hB : 0 < 2 ^ m := Nat.two_pow_pos m
+  have hD : 0 < 2 ^ d := Nat.two_pow_pos d
+  have hs : 2 ^ (m + d + 1) = 2 ^ d * 2 ^ (m + 1) := pow_mds m d
+  have hbound : 2 ^ d * 2 ^ (m + 1) * 2 ≤ 65536 := by
+    rw [← hs, ← Nat.pow_succ]
+    exact Nat.pow_le_pow_right (by decide) (show m + d + 1 + 1 ≤ 16 by omega)
+  have h2 : 2 ^ (d + 1) = 2 ^ d + 2 ^ d := by rw [Nat.pow_succ]; omega
+  intro f
+  induction f with
+  | zero =>
+    intro t a ht hf _ hok
+    have e : t = 2 ^ d := by omega
+    rw [skewInner_zero]
+    refine ⟨?_, Frame.refl m a⟩
+    rw [h2]
+    rw [e] at hok
+    exact hok
+  | succ f ih =>
+    intro t a ht hf hsz hok
+    rw [skewInner_succ]
+    by_cases hlt : t < 2 ^ d
+    · have hmul : (t + 1) * 2 ^ (m + 1) ≤ 2 ^ d * 2 ^ (m + 1) := Nat.mul_le_mul_right _ hlt
+      rw [Nat.add_mul, Nat.one_mul] at hmul
+      have hj : 2 ^ m - 1 + t * 2 ^ (m + 1) < 2 ^ (m + d + 1) := by rw [hs]; omega
+      rw [if_pos hj]
+      have hidx : 2 ^ m - 1 + t * 2 ^ (m + 1) + 2 ^ (m + d + 1) =
+          2 ^ m - 1 + (2 ^ d + t) * 2 ^ (m + 1) := by
+        rw [hs, Nat.add_mul]; omega
+      have hnext : 2 ^ m - 1 + t * 2 ^ (m + 1) + 2 ^ (m + 1) =
+          2 ^ m - 1 + (t + 1) * 2 ^ (m + 1) := by
+        rw [Nat.add_mul, Nat.one_mul]; omega
+      have hin : 2 ^ m - 1 + (2 ^ d + t) * 2 ^ (m + 1) < 65535 := by
+        rw [Nat.add_mul]; omega
+      have hval : Nat.xor (sPoly m (BitVec.ofNat 16 (t * 2 ^ (m + 1)))).toNat
+            (sPoly m (BitVec.ofNat 16 (2 ^ (m + d + 1)))).toNat =
+          (sPoly m (BitVec.ofNat 16 ((2 ^ d + t) * 2 ^ (m + 1)))).toNat := by
+        rw [natXor_toNat, ← sPoly_add, BitVec.xor_comm,
+          ← ofNat_add_of_dvd (j := m + d + 1) (Nat.dvd_refl _) (by rw [hs]; omega), hs,
+          Nat.add_mul]
+      rw [hidx, hnext, hok t (by omega), hval]
+      have hok' : LevelOK m (2 ^ d + (t + 1))
+          (a.setIfInBounds (2 ^ m - 1 + (2 ^ d + t) * 2 ^ (m + 1))
+            (sPoly m (BitVec.ofNat 16 ((2 ^ d + t) * 2 ^ (m + 1)))).toNat) := by
+        intro t' ht'
+        rw [getD_setIfInBounds]
+        by_cases he : t' = 2 ^ d + t
+        · subst he
+          rw [if_pos ⟨rfl, by rw [hsz]; exact hin⟩]
+        · rw [if_neg]
+          · exact hok t' (by omega)
+          · intro hc
+            apply he
+            have h3 : (2 ^ d + t) * 2 ^ (m + 1) = t' * 2 ^ (m + 1) := by omega
+            exact (Nat.eq_of_mul_eq_mul_right (Nat.two_pow_pos (m + 1)) h3).symm
+      obtain ⟨r1, r2⟩ := ih (t + 1) _ (by omega) (by omega)
+        (by rw [Array.size_setIfInBounds, hsz]) hok'
+      exact ⟨r1, Frame.trans (Frame.set m _ _ a) r2⟩
+    · have e : t = 2 ^ d := by omega
+      have hj : ¬ 2 ^ m - 1 + t * 2 ^ (m + 1) < 2 ^ (m + d + 1) := by rw [hs, e]; omega
+      rw [if_neg hj]
+      refine ⟨?_, Frame.refl m a⟩
+      rw [h2]
+      rw [e] at hok
+      exact hok
+
+/-- the skew part of one outer iteration -/
+def skewLevel (m : Nat) (temp skew : Array Nat) : Array Nat :=
+  (List.range (15 - m)).foldl
+    (fun sk d => skewInner (2 ^ (m + 1)) (2 ^ (m + d + 1)) (temp.getD (m + d) 0) 65536 (2 ^ m - 1) sk)
+    (skew.setIfInBounds (2 ^ m - 1) 0)
+
+/-- the `temp` part of one outer iteration -/
+def tempNext (e l : Array Nat) (m : Nat) (temp : Array Nat) : Array Nat :=
+  (List.range (14 - m)).foldl
+    (fun t d => t.setIfInBounds (m + 1 + d) (tmul e l (t.getD (m + 1 + d) 0)
+      (addMod (l.getD (Nat.xor (t.getD (m + 1 + d) 0) 1) 0)
+        (65535 - l.getD (tmul e l (temp.getD m 0) (l.getD (Nat.xor (temp.getD m 0) 1) 0)) 0))))
+    (temp.setIfInBounds m
+      (65535 - l.getD (tmul e l (temp.getD m 0) (l.getD (Nat.xor (temp.getD m 0) 1) 0)) 0))
+
+theorem skewOuterStep_eq (e l : Array Nat) (m : Nat) (skew temp : Array Nat) :
+    skewOuterStep e l m (skew, temp) = (skewLevel m temp skew, tempNext e l m temp) := rfl
+
+/-- the inner-loop fill lemma for one level: after the loops for `i = m … 14` all of level `m`
+    is filled, and nothing else has changed -/
+theorem skewLevel_spec {m : Nat} (hm : m ≤ 14) {temp skew : Array Nat} (hsz : skew.size = 65535)
+    (htemp : ∀ i, m ≤ i → i < 15 →
+      temp.getD i 0 = (sPoly m (BitVec.ofNat 16 (2 ^ (i + 1)))).toNat) :
+    LevelOK m (2 ^ (15 - m)) (skewLevel m temp skew) ∧ Frame m skew (skewLevel m temp skew) := by
+  have key : ∀ n, n ≤ 15 - m →
+      LevelOK m (2 ^ n) ((List.range n).foldl
+        (fun sk d => skewInner (2 ^ (m + 1)) (2 ^ (m + d + 1)) (temp.getD (m + d) 0) 65536
+          (2 ^ m - 1) sk) (skew.setIfInBounds (2 ^ m - 1) 0)) ∧
+      Frame m skew ((List.range n).foldl
+        (fun sk d => skewInner (2 ^ (m + 1)) (2 ^ (m + d + 1)) (temp.getD (m + d) 0) 65536
+          (2 ^ m - 1) sk) (skew.setIfInBounds (2 ^ m - 1) 0)) := by
+    intro n
+    induction n with
+    | zero =>
+      intro _
+      refine ⟨?_, ?_⟩
+      · intro t ht
+        have : t = 0 := by simpa using ht
+        subst this
+        show (skew.setIfInBounds (2 ^ m - 1) 0).getD (2 ^ m - 1 + 0 * 2 ^ (m + 1)) 0 = _
+        have hp : 2 ^ m ≤ 2 ^ 14 := Nat.pow_le_pow_right (by decide) hm
+        rw [Nat.zero_mul, Nat.add_zero, getD_setIfInBounds, sPoly_zero_arg,
+          if_pos ⟨rfl, by rw [hsz]; omega⟩]
+        rfl
+      · have := Frame.set m 0 0 skew
+        rw [Nat.zero_mul, Nat.add_zero] at this
+        exact this
+    | succ n ih =>
+      intro hn
+      obtain ⟨r1, r2⟩ := ih (by omega)
+      rw [List.range_succ, List.foldl_append, List.foldl_cons, List.foldl_nil,
+        htemp (m + n) (by omega) (by omega)]
+      have hfuel : 2 ^ n ≤ 0 + 65536 := by
+        have := Nat.pow_le_pow_right (show 0 < 2 by decide) (show n ≤ 16 by omega)
+        omega
+      have := skewInner_spec (m := m) (d := n) (by omega) 65536 0 _ (Nat.zero_le _) hfuel
+        (r2.1.trans hsz) (by rw [Nat.add_zero]; exact r1)
+      rw [Nat.zero_mul, Nat.add_zero] at this
+      exact ⟨this.1, Frame.trans r2 this.2⟩
+  exact key (15 - m) (Nat.le_refl _)
+
+/-! ### the `temp` update: `t ↦ t·(t ⊕ 1)` -/
+
+theorem sPoly_zero_of_le {j : Nat} {x : Sym} (h : sPoly j x = 0#16) :
+    ∀ k, sPoly (j + k) x = 0#16
+  | 0 => h
+  | k + 1 => by
+    rw [← Nat.add_assoc, sPoly_succ, sPoly_zero_of_le h k]
+    exact gmul_zero_left _
+
+theorem gone_ne_zero : gone ≠ 0#16 := by decide
+
+/-- `s_m(2^(i+1)) ≠ 1` for `m ≤ i < 15` (else `s_(i+1)(2^(i+1))` would vanish) -/
+theorem sPoly_ne_gone {m i : Nat} (hmi : m ≤ i) (hi : i < 15) :
+    sPoly m (BitVec.ofNat 16 (2 ^ (i + 1))) ≠ gone := by
+  intro h
+  have h1 : sPoly (m + 1) (BitVec.ofNat 16 (2 ^ (i + 1))) = 0#16 := by
+    rw [sPoly_succ, h, xor_self']
+    exact gmul_zero_right _
+  have h2 := sPoly_zero_of_le h1 (i - m)
+  rw [show m + 1 + (i - m) = i + 1 by omega, sPoly_basisF (i + 1) (by omega)] at h2
+  exact gone_ne_zero h2
+
+theorem xor_gone_ne_zero {y : Sym} (hy : y ≠ gone) : y ^^^ gone ≠ 0#16 := by
+  intro h
+  apply hy
+  have : y = (y ^^^ gone) ^^^ gone := by rw [BitVec.xor_assoc, xor_self', xor_zero']
+  rw [this, h, zero_xor']
+
+section withOK2
+variable {e l : Array Nat} (ok : ExpLogOK e l)
+include ok
+
+theorem log_xor_one (y : Sym) (hy : y ≠ gone) :
+    l.getD (Nat.xor y.toNat 1) 0 < 65535 ∧ gexp (l.getD (Nat.xor y.toNat 1) 0) = y ^^^ gone := by
+  have e1 : Nat.xor y.toNat 1 = (y ^^^ gone).toNat := natXor_toNat y gone
+  have hne := xor_gone_ne_zero hy
+  rw [e1, ok.log _ (sym_toNat_lt _), logArr_spec _ hne]
+  exact glog_spec _ hne
+
+theorem tmul_artin0 (y : Sym) (hy : y ≠ gone) :
+    tmul e l y.toNat (l.getD (Nat.xor y.toNat 1) 0) = (gmul y (y ^^^ gone)).toNat := by
+  obtain ⟨h1, h2⟩ := log_xor_one ok y hy
+  rw [tmul_spec ok _ _ (sym_toNat_lt y) (by omega), ofNat_toNat_sym, h2]
+
+theorem tmul_artin (y : Sym) (hy : y ≠ gone) :
+    tmul e l y.toNat (addMod (l.getD (Nat.xor y.toNat 1) 0) 65535) =
+      (gmul y (y ^^^ gone)).toNat := by
+  obtain ⟨h1, h2⟩ := log_xor_one ok y hy
+  rw [tmul_spec ok _ _ (sym_toNat_lt y) (addMod_le (by omega) (Nat.le_refl _)), ofNat_toNat_sym,
+    gexp_addMod (by omega) (Nat.le_refl _), gexp_65535, gmul_one_right, h2]
+
+/-- the normalisation logarithm of iteration `m` is `65535` (≡ 0): `s_(m+1)(2^(m+1)) = 1` -/
+theorem tmNew_eq {m : Nat} (hm : m ≤ 14) :
+    65535 - l.getD (tmul e l (sPoly m (BitVec.ofNat 16 (2 ^ (m + 1)))).toNat
+      (l.getD (Nat.xor (sPoly m (BitVec.ofNat 16 (2 ^ (m + 1)))).toNat 1) 0)) 0 = 65535 := by
+  rw [tmul_artin0 ok _ (sPoly_ne_gone (Nat.le_refl m) (by omega)), ← sPoly_succ,
+    sPoly_basisF (m + 1) (by omega)]
+  have : l.getD gone.toNat 0 = 0 := by
+    rw [ok.log _ (by decide), ← gexp_zero]
+    exact logArr_gexp 0 (by decide)
+  rw [this]
+
+/-- invariant for `temp`: one outer iteration turns `s_m(2^(i+1))` into `s_(m+1)(2^(i+1))` -/
+theorem tempNext_spec {m : Nat} (hm : m ≤ 14) {temp : Array Nat} (hsz : temp.size = 15)
+    (htemp : ∀ i, m ≤ i → i < 15 →
+      temp.getD i 0 = (sPoly m (BitVec.ofNat 16 (2 ^ (i + 1)))).toNat) :
+    (tempNext e l m temp).size = 15 ∧ ∀ i, m + 1 ≤ i → i < 15 →
+      (tempNext e l m temp).getD i 0 = (sPoly (m + 1) (BitVec.ofNat 16 (2 ^ (i + 1)))).toNat := by
+  unfold tempNext
+  rw [htemp m (Nat.le_refl m) (by omega), tmNew_eq ok hm]
+  have key : ∀ n, n ≤ 14 - m →
+      ((List.range n).foldl
+        (fun t d => t.setIfInBounds (m + 1 + d) (tmul e l (t.getD (m + 1 + d) 0)
+          (addMod (l.getD (Nat.xor (t.getD (m + 1 + d) 0) 1) 0) 65535)))
+        (temp.setIfInBounds m 65535)).size = 15 ∧
+      (∀ i, m + 1 ≤ i → i < m + 1 + n →
+        ((List.range n).foldl
+          (fun t d => t.setIfInBounds (m + 1 + d) (tmul e l (t.getD (m + 1 + d) 0)
+            (addMod (l.getD (Nat.xor (t.getD (m + 1 + d) 0) 1) 0) 65535)))
+          (temp.setIfInBounds m 65535)).getD i 0 =
+          (sPoly (m + 1) (BitVec.ofNat 16 (2 ^ (i + 1)))).toNat) ∧
+      (∀ i, m + 1 + n ≤ i → i < 15 →
+        ((List.range n).foldl
+          (fun t d => t.setIfInBounds (m + 1 + d) (tmul e l (t.getD (m + 1 + d) 0)
+            (addMod (l.getD (Nat.xor (t.getD (m + 1 + d) 0) 1) 0) 65535)))
+          (temp.setIfInBounds m 65535)).getD i 0 =
+          (sPoly m (BitVec.ofNat 16 (2 ^ (i + 1)))).toNat) := by
+    intro n
+    induction n with
+    | zero =>
+      intro _
+      refine ⟨?_, fun i h1 h2 => by omega, fun i h1 h2 => ?_⟩
+      · show (temp.setIfInBounds m 65535).size = 15
+        rw [Array.size_setIfInBounds, hsz]
+      · show (temp.setIfInBounds m 65535).getD i 0 = _
+        rw [getD_setIfInBounds, if_neg (by omega)]
+        exact htemp i (by omega) h2
+    | succ n ih =>
+      intro hn
+      obtain ⟨r1, r2, r3⟩ := ih (by omega)
+      rw [List.range_succ, List.foldl_append, List.foldl_cons, List.foldl_nil,
+        r3 (m + 1 + n) (Nat.le_refl _) (by omega),
+        tmul_artin ok _ (sPoly_ne_gone (by omega) (by omega)), ← sPoly_succ]
+      refine ⟨by rw [Array.size_setIfInBounds, r1], fun i h1 h2 => ?_, fun i h1 h2 => ?_⟩
+      · rw [getD_setIfInBounds]
+        by_cases hi : i = m + 1 + n
+        · subst hi
+          rw [if_pos ⟨rfl, by rw [r1]; omega⟩]
+        · rw [if_neg (fun hc => hi hc.1.symm)]
+          exact r2 i h1 (by omega)
+      · rw [getD_setIfInBounds, if_neg (by omega)]
+        exact r3 i (by omega) h2
+  obtain ⟨r1, r2, _⟩ := key (14 - m) (Nat.le_refl _)
+  exact ⟨r1, fun i h1 h2 => r2 i h1 (by omega)⟩
+
+end withOK2
+
+/-! ### the outer loop -/
+
+theorem level_idx (m t : Nat) : 2 ^ m - 1 + t * 2 ^ (m + 1) + 1 = 2 ^ m * (2 * t + 1) := by
+  have hB := Nat.two_pow_pos m
+  have e1 : t * 2 ^ (m + 1) = 2 * (t * 2 ^ m) := by rw [pow_succ2, Nat.mul_left_comm]
+  have e2 : 2 ^ m * (2 * t + 1) = 2 * (t * 2 ^ m) + 2 ^ m := by
+    rw [Nat.mul_add, Nat.mul_one, Nat.mul_left_comm, Nat.mul_comm (2 ^ m) t]
+  rw [e1, e2]; omega
+
+theorem level_idx_inj {m m' t t' : Nat} (hm : m < 64) (hm' : m' < 64)
+    (h : 2 ^ m - 1 + t * 2 ^ (m + 1) = 2 ^ m' - 1 + t' * 2 ^ (m' + 1)) : m = m' := by
+  have h1 : 2 ^ m * (2 * t + 1) = 2 ^ m' * (2 * t' + 1) := by
+    rw [← level_idx, ← level_idx, h]
+  have a := tz_two_pow_mul (j := m) (m := 2 * t + 1) hm (by omega)
+  rw [h1, tz_two_pow_mul hm' (by omega)] at a
+  exact a.symm
+
+/-- invariant of the outer loop of `initialize_skew` at the start of iteration `m` -/
+structure OuterInv (m : Nat) (skew temp : Array Nat) : Prop where
+  ssize : skew.size = 65535
+  tsize : temp.size = 15
+  levels : ∀ m', m' < m → LevelOK m' (2 ^ (15 - m')) skew
+  top : skew.getD 32767 0 = 0
+  temp : ∀ i, m ≤ i → i < 15 →
+    temp.getD i 0 = (sPoly m (BitVec.ofNat 16 (2 ^ (i + 1)))).toNat
+
+theorem OuterInv.step {e l : Array Nat} (ok : ExpLogOK e l) {m : Nat} (hm : m ≤ 14)
+    {skew temp : Array Nat} (h : OuterInv m skew temp) :
+    OuterInv (m + 1) (skewLevel m temp skew) (tempNext e l m temp) := by
+  obtain ⟨l1, l2⟩ := skewLevel_spec hm h.ssize h.temp
+  obtain ⟨t1, t2⟩ := tempNext_spec ok hm h.tsize h.temp
+  refine ⟨l2.1.trans h.ssize, t1, fun m' hm' => ?_, ?_, t2⟩
+  · by_cases he : m' = m
+    · subst he; exact l1
+    · intro t ht
+      rw [l2.2 _ (fun t' hc => he (level_idx_inj (by omega) (by omega) hc))]
+      exact h.levels m' (by omega) t ht
+  · rw [l2.2 _ (fun t' hc => ?_)]
+    · exact h.top
+    · have h15 : (32767 : Nat) = 2 ^ 15 - 1 + 0 * 2 ^ (15 + 1) := by decide
+      rw [h15] at hc
+      have := level_idx_inj (by decide) (by omega) hc
+      omega
+
+theorem OuterInv.init : OuterInv 0 (Array.replicate 65535 0)
+    (Array.ofFn (n := 15) fun i => 2 ^ (i.val + 1)) := by
+  refine ⟨Array.size_replicate, Array.size_ofFn, fun m' h => by omega,
+    getD_replicate_zero _ _, fun i _ hi => ?_⟩
+  rw [getD_ofFn _ i hi, sPoly_zero]
+  show 2 ^ (i + 1) = (BitVec.ofNat 16 (2 ^ (i + 1))).toNat
+  have : 2 ^ (i + 1) ≤ 2 ^ 15 := Nat.pow_le_pow_right (by decide) (by omega)
+  exact (toNat_ofNat_lt (by omega)).symm
+
+theorem outer_fold {e l : Array Nat} (ok : ExpLogOK e l) : ∀ n, n ≤ 15 → ∃ sk tp,
+    (List.range n).foldl (fun st m => skewOuterStep e l m st)
+      (Array.replicate 65535 0, Array.ofFn (n := 15) fun i => 2 ^ (i.val + 1)) = (sk, tp) ∧
+    OuterInv n sk tp := by
+  intro n
+  induction n with
+  | zero => intro _; exact ⟨_, _, rfl, OuterInv.init⟩
+  | succ n ih =>
+    intro hn
+    obtain ⟨sk, tp, h1, h2⟩ := ih (by omega)
+    refine ⟨_, _, ?_, h2.step ok (by omega)⟩
+    rw [List.range_succ, List.foldl_append, h1, List.foldl_cons, List.foldl_nil, skewOuterStep_eq]
+
+theorem exists_two_pow_mul_odd : ∀ n, 0 < n → ∃ j t, n = 2 ^ j * (2 * t + 1) := by
+  intro n
+  induction n using Nat.strong_induction_on with
+  | _ n ih =>
+    intro hn
+    by_cases h : n % 2 = 1
+    · exact ⟨0, n / 2, by rw [Nat.pow_zero, Nat.one_mul]; omega⟩
+    · obtain ⟨j, t, h'⟩ := ih (n / 2) (by omega) (by omega)
+      refine ⟨j + 1, t, ?_⟩
+      have e : n = 2 * (n / 2) := by omega
+      calc n = 2 * (n / 2) := e
+        _ = 2 * (2 ^ j * (2 * t + 1)) := by rw [← h']
+        _ = 2 ^ (j + 1) * (2 * t + 1) := by rw [pow_succ2, Nat.mul_assoc]
+
+/-- after the outer loop every entry is the twiddle factor, as a field element -/
+theorem OuterInv.entry {sk tp : Array Nat} (inv : OuterInv 15 sk tp) (i : Nat) (hi : i < 65535) :
+    sk.getD i 0 = (skewElem i).toNat := by
+  obtain ⟨j, t, hjt⟩ := exists_two_pow_mul_odd (i + 1) (by omega)
+  have hB := Nat.two_pow_pos j
+  have hj16 : j < 16 := by
+    apply Classical.byContradiction
+    intro hc
+    have h1 : 2 ^ 16 ≤ 2 ^ j := Nat.pow_le_pow_right (by decide) (by omega)
+    have h2 : 2 ^ j * 1 ≤ 2 ^ j * (2 * t + 1) := Nat.mul_le_mul_left _ (by omega)
+    have h3 : (2 : Nat) ^ 16 = 65536 := by decide
+    omega
+  have htz : tz (i + 1) = j := by rw [hjt]; exact tz_two_pow_mul (by omega) (by omega)
+  have hel : skewElem i = sPoly j (BitVec.ofNat 16 (i + 1 - 2 ^ j)) := by
+    simp only [skewElem]
+    rw [htz]
+  have hidx := level_idx j t
+  rw [← hjt] at hidx
+  rw [hel]
+  by_cases hj : j ≤ 14
+  · have ht : t < 2 ^ (15 - j) := by
+      have h1 : 2 ^ j * 2 ^ (16 - j) = 65536 := by
+        rw [← Nat.pow_add, show j + (16 - j) = 16 by omega]
+      have h2 : 2 ^ j * (2 * t + 1) < 2 ^ j * 2 ^ (16 - j) := by omega
+      have h3 := Nat.lt_of_mul_lt_mul_left h2
+      have h4 : 2 ^ (16 - j) = 2 * 2 ^ (15 - j) := by
+        rw [show 16 - j = (15 - j) + 1 by omega, pow_succ2]
+      omega
+    have hlv := inv.levels j (by omega) t ht
+    rw [show 2 ^ j - 1 + t * 2 ^ (j + 1) = i by omega,
+      show t * 2 ^ (j + 1) = i + 1 - 2 ^ j by omega] at hlv
+    exact hlv
+  · have e : j = 15 := by omega
+    subst e
+    have h1 : (2 : Nat) ^ 15 = 32768 := by decide
+    rw [h1] at hjt
+    have h2 : i = 32767 := by omega
+    subst h2
+    rw [inv.top, h1, Nat.sub_self]
+    exact (congrArg BitVec.toNat (sPoly_zero_arg 15)).symm
+
+/-- D: `initialize_skew` produces the `SKEW` table -/
+theorem initSkew_spec {e l : Array Nat} (ok : ExpLogOK e l) (i : Nat) (hi : i < 65535) :
+    (initSkew e l).getD i 0 = skewLog i := by
+  obtain ⟨sk, tp, hst, inv⟩ := outer_fold ok 15 (Nat.le_refl _)
+  have e1 : initSkew e l = Array.ofFn (n := 65535) fun i => l.getD (sk.getD i.val 0) 0 := by
+    unfold initSkew
+    dsimp only
+    rw [hst]
+  rw [e1, getD_ofFn _ i hi]
+  show l.getD (sk.getD i 0) 0 = _
+  rw [inv.entry i hi, ok.log _ (sym_toNat_lt _)]
+  unfold skewLog
+  rfl
+
+theorem initSkew_size (e l : Array Nat) : (initSkew e l).size = 65535 := by
+  unfold initSkew
+  dsimp only
+  generalize (List.range 15).foldl _ _ = st
+  obtain ⟨sk, tp⟩ := st
+  exact Array.size_ofFn
+
+theorem initSkew_initExpLog (i : Nat) (hi : i < 65535) :
+    (initSkew initExpLog.1 initExpLog.2).getD i 0 = skewLog i :=
+  initSkew_spec initExpLog_ok i hi
+
 end RS
+
+#print axioms RS.lfsrStep_eq
+#print axioms RS.lfsrFill_spec
+#print axioms RS.cantorFill_spec
+#print axioms RS.lfsrFill_get
+#print axioms RS.lfsrFill_get_zero
+#print axioms RS.cantorFill_get
+#print axioms RS.initExpLog_log
+#print axioms RS.initExpLog_log_glog
+#print axioms RS.initExpLog_log_zero
+#print axioms RS.initExpLog_exp_log
+#print axioms RS.initExpLog_log_size
+#print axioms RS.initExpLog_exp
+#print axioms RS.initExpLog_exp_expArr
+#print axioms RS.initExpLog_log_eq
+#print axioms RS.initExpLog_ok
+#print axioms RS.tmul_spec
+#print axioms RS.initMul16Entry_spec
+#print axioms RS.initMul16Entry_initExpLog
+#print axioms RS.initLogWalsh_spec
+#print axioms RS.initLogWalsh_initExpLog
+#print axioms RS.skewInner_spec
+#print axioms RS.skewLevel_spec
+#print axioms RS.tempNext_spec
+#print axioms RS.OuterInv.step
+#print axioms RS.OuterInv.entry
+#print axioms RS.initSkew_spec
+#print axioms RS.initSkew_size
+#print axioms RS.initSkew_initExpLog
